@@ -976,7 +976,16 @@ def run_getitem(ctx, tmp):
         def load(self):
             return list(self.recs)
 
-    for sc in range(ctx.n(40, 400)):
+    def other_genes(gid):
+        return [t for t, m in anno.transcripts.items() if m.transcript.gene_id != gid]
+
+    def access(pl, t):
+        try:
+            return ser(pl[t])
+        except Exception as e:   # noqa  (an invalid record is rejected the same way on both routes)
+            return ('raised', type(e).__name__, str(e)[:120])
+    nfus = [0]
+    for sc in range(ctx.n(60, 600)):
         nfiles = rng.randint(1, 3)
         txs = rng.sample(coding, min(len(coding), rng.randint(1, 4)))
         paths = []
@@ -996,6 +1005,24 @@ def run_getitem(ctx, tmp):
                             s0 = rng.randint(0, max(0, glen - 40))
                             out.append((gene_id, [(s0, s0 + 10), (s0 + 20, s0 + 30)], [],
                                         f'CIRC-{t}-{s0}', t, 'SYM', ''))
+                        elif rng.random() < 0.3 and len(other_genes(gene_id)) > 0:
+                            # a Fusion record; breakpoints anywhere in the two genes (exonic or
+                            # intronic: the accessor shifts intronic breakpoints to the closest
+                            # exon and keeps the intronic stretch as an insertion)
+                            st = rng.randint(1, max(1, glen - 10))
+                            ref = str(gene_seq.seq[st])
+                            t2 = rng.choice(other_genes(gene_id))
+                            g2 = anno.transcripts[t2].transcript.gene_id
+                            g2len = len(anno.genes[g2].location)
+                            ap = rng.randint(1, max(1, g2len - 10))
+                            out.append((gene_id, st, st + 1, ref, '<FUSION>', 'Fusion',
+                                        f'FUSION-{t}:{st}-{t2}:{ap}',
+                                        {'TRANSCRIPT_ID': t, 'GENE_SYMBOL': 'S',
+                                         'GENOMIC_POSITION': f'chr1:{st}',
+                                         'ACCEPTER_GENE_ID': g2, 'ACCEPTER_TRANSCRIPT_ID': t2,
+                                         'ACCEPTER_SYMBOL': 'S2', 'ACCEPTER_POSITION': ap,
+                                         'ACCEPTER_GENOMIC_POSITION': f'chr1:{ap}'}))
+                            nfus[0] += 1
                         else:
                             st = rng.randint(1, max(1, glen - 10))
                             ref = str(gene_seq.seq[st])
@@ -1021,24 +1048,33 @@ def run_getitem(ctx, tmp):
              'idx': [os.path.exists(p + '.idx') for p in paths]}
         try:
             with VariantRecordPoolOnDiskOpener(pool):
-                for t in txs:
+                # every transcript is visited one to three times in a shuffled order: a later
+                # visit must give what the first one gave (= the accessor over a fresh linear scan)
+                visits = [t for t in txs for _ in range(rng.randint(1, 3))]
+                rng.shuffle(visits)
+                seen = set()
+                for t in visits:
                     lin = real_scan(paths, t)
                     if not lin:
                         if t in pool:
                             ctx.add_violation('pool knows a transcript that no file contains',
                                               dict(d, tx=t))
                         continue
-                    via = ser(pool[t])
+                    via = access(pool, t)
                     ref_pool = VariantRecordPoolOnDisk(pointers={t: [ScanPointer(lin)]},
                                                        anno=anno, genome=genome)
-                    exp = ser(ref_pool[t])
-                    ctx.evaluated('getitem_direct', f'{sc}|{t}', True,
+                    exp = access(ref_pool, t)
+                    ctx.evaluated('getitem_direct', f'{sc}|{t}|{t in seen}', True,
                                   dict(d, tx=t) if sc < 1 else None)
+                    if t in seen:
+                        ctx.count('getitem_direct', 'repeated_visits')
                     if via != exp:
                         ctx.add_violation(
                             'VariantRecordPoolOnDisk[tx] through the index differs from the '
-                            'same accessor over a linear scan', dict(d, tx=t, via_index=via,
-                                                                     linear_scan=exp))
+                            'same accessor over a linear scan' +
+                            (' on a REPEATED visit of the transcript' if t in seen else ''),
+                            dict(d, tx=t, via_index=via, linear_scan=exp, visits=visits))
+                    seen.add(t)
         except Exception as e:   # noqa
             ctx.add_broken('correspondence', 'getitem',
                            f'{type(e).__name__}: {e} on {json.dumps(d)[:1500]}')
